@@ -1737,7 +1737,7 @@ Lemma completed_example :
     proc t = ExitOk /\ fin t = DoneOk /\ dcur t = [(1, 0%Z); (2, 1%Z)]%Q.
 Proof.
   intros evs. split.
-  - unfold evs, good_ev. repeat (constructor; simpl; try (split; [reflexivity|])); ss; auto.
+  - unfold evs, good_ev. repeat (constructor; simpl; try (split; [reflexivity|])); ss; try discriminate; auto.
   - eexists. eexists. eexists. split; [vm_compute; reflexivity|]. split.
     + intros [|[|j]] t Hj Hl; simpl in Hj; try discriminate; left; reflexivity.
     + split; [vm_compute; reflexivity|]. split; [vm_compute; reflexivity|]. repeat split; reflexivity.
